@@ -1,7 +1,7 @@
 (* C16 (round 4): Arr_Proofs instantiated with the regenerated sizing functions (sqrt / cnst, every L <= 62, sizes < 2^62) *)
 From Coq Require Import ZArith Bool List Lia.
 From MomoCommon Require Import GenPrelude.
-From C16 Require Gen_SegSqrt Gen_SegCnst Gen_ArrSqrt Gen_ArrCnst Gen_ArrLog Gen_ShiftSqrt Gen_ShiftCnst SegMath SegSqrt_Proofs SegCnst_Proofs SegModel SegModel_Inst Arr_Proofs.
+From C16 Require Gen_SegSqrt Gen_SegCnst Gen_ArrSqrt Gen_ArrCnst Gen_ArrLog Gen_ShiftSqrt Gen_ShiftCnst Gen_SegFacts SegMath SegSqrt_Proofs SegCnst_Proofs SegModel SegModel_Inst Arr_Proofs.
 Local Open Scope Z_scope.
 Import SegMath SegModel_Inst.
 
@@ -200,6 +200,40 @@ Theorem sqrt_removeback_bridge segs n c k : 0 <= k -> 0 <= c < maxi ->
   Gen_ArrSqrt.RemoveBack seg cnt segs n c k = if Z.leb k c then Ok (tt, c - k) else Stuck.
 Proof. intros. eapply (Arr_Proofs.removeback_bridge seg idx cnt maxi (SCq L)); dq2. Qed.
 
+Theorem sqrt_insert_n_from_facts alloc segs n c (items : Z -> Z) index count it : Arr_Proofs.ginv seg maxi (SCq L) n c -> 0 <= index <= c -> 0 <= count ->
+  c + count < maxi -> (it < index \/ c + count <= it) ->
+  exists g', Arr_Proofs.run seg idx alloc (map Arr_Proofs.act_of Gen_SegFacts.seg_insert_n) index count it (Arr_Proofs.mkg segs n c items) = Ok g' /\
+    Arr_Proofs.g_c g' = c + count /\ (forall k, k < n -> Arr_Proofs.g_segs g' k = segs k) /\ Arr_Proofs.ginv seg maxi (SCq L) (Arr_Proofs.g_n g') (c + count) /\
+    (forall i, 0 <= i < c -> Arr_Proofs.GA.pvGetItem seg (Arr_Proofs.g_segs g') (Arr_Proofs.g_n g') (c + count) i = Arr_Proofs.GA.pvGetItem seg segs n c i) /\
+    (forall j, j < index -> Arr_Proofs.g_items g' j = items j) /\ (forall j, index <= j < index + count -> Arr_Proofs.g_items g' j = items it) /\
+    (forall j, index + count <= j < c + count -> Arr_Proofs.g_items g' j = items (j - count)).
+Proof. intros. eapply (Arr_Proofs.insert_n_from_facts seg idx cnt alloc maxi (SCq L)); dq2. Qed.
+
+Theorem sqrt_remove_n_from_facts alloc segs n c (items : Z -> Z) index count : Arr_Proofs.ginv seg maxi (SCq L) n c -> 0 <= index -> 0 <= count -> index + count <= c ->
+  exists g', Arr_Proofs.run seg idx alloc (map Arr_Proofs.act_of Gen_SegFacts.seg_remove_n) index count 0 (Arr_Proofs.mkg segs n c items) = Ok g' /\
+    Arr_Proofs.g_c g' = c - count /\ Arr_Proofs.g_segs g' = segs /\ Arr_Proofs.g_n g' = n /\ Arr_Proofs.ginv seg maxi (SCq L) n (c - count) /\
+    (forall i, 0 <= i < c - count -> Arr_Proofs.GA.pvGetItem seg segs n (c - count) i = Arr_Proofs.GA.pvGetItem seg segs n c i) /\
+    (forall j, j < index -> Arr_Proofs.g_items g' j = items j) /\ (forall j, index <= j < c - count -> Arr_Proofs.g_items g' j = items (j + count)).
+Proof. intros. eapply (Arr_Proofs.remove_n_from_facts seg idx cnt alloc maxi (SCq L)); dq2. Qed.
+
+Theorem sqrt_range_insert_from_facts alloc segs n c (items : Z -> Z) index count : Arr_Proofs.ginv seg maxi (SCq L) n c -> 0 <= count -> c + count < maxi ->
+  exists g', Arr_Proofs.run seg idx alloc (map Arr_Proofs.act_of Gen_SegFacts.seg_pvinsert_forward) index count 0 (Arr_Proofs.mkg segs n c items) = Ok g' /\
+    Arr_Proofs.g_c g' = c + count /\ (forall k, k < n -> Arr_Proofs.g_segs g' k = segs k) /\ Arr_Proofs.ginv seg maxi (SCq L) (Arr_Proofs.g_n g') (c + count) /\
+    (forall i, 0 <= i < c -> Arr_Proofs.GA.pvGetItem seg (Arr_Proofs.g_segs g') (Arr_Proofs.g_n g') (c + count) i = Arr_Proofs.GA.pvGetItem seg segs n c i).
+Proof. intros. eapply (Arr_Proofs.range_insert_from_facts seg idx cnt alloc maxi (SCq L)); dq2. Qed.
+
+Theorem sqrt_singlepass_insert_from_facts alloc m segs n c (items : Z -> Z) index (its : nat -> Z) : Arr_Proofs.ginv seg maxi (SCq L) n c -> 0 <= index <= c ->
+  c + Z.of_nat m < maxi -> (forall k, c + Z.of_nat m <= its k) ->
+  exists g', Arr_Proofs.insert_crt_times seg idx alloc m index its (Arr_Proofs.mkg segs n c items) = Ok g' /\ Arr_Proofs.g_c g' = c + Z.of_nat m /\
+    (forall k, k < n -> Arr_Proofs.g_segs g' k = segs k) /\ Arr_Proofs.ginv seg maxi (SCq L) (Arr_Proofs.g_n g') (c + Z.of_nat m) /\
+    (forall i, 0 <= i < c -> Arr_Proofs.GA.pvGetItem seg (Arr_Proofs.g_segs g') (Arr_Proofs.g_n g') (c + Z.of_nat m) i = Arr_Proofs.GA.pvGetItem seg segs n c i).
+Proof. intros. eapply (Arr_Proofs.singlepass_insert_from_facts seg idx cnt alloc maxi (SCq L)); dq2. Qed.
+
+Theorem sqrt_removeback_stable segs n c k : Arr_Proofs.ginv seg maxi (SCq L) n c -> 0 <= k <= c ->
+  Arr_Proofs.GA.RemoveBack seg cnt segs n c k = Ok (tt, c - k) /\ Arr_Proofs.ginv seg maxi (SCq L) n (c - k) /\
+  (forall i, 0 <= i < c - k -> Arr_Proofs.GA.pvGetItem seg segs n (c - k) i = Arr_Proofs.GA.pvGetItem seg segs n c i).
+Proof. intros. eapply (Arr_Proofs.removeback_stable seg idx cnt maxi (SCq L)); dq2. Qed.
+
 Theorem sqrt_ginv_empty : Arr_Proofs.ginv seg maxi (SCq L) 0 0.
 Proof. split; [lia|]. apply (SegModel_Inst.sqrt_inv_empty L HL). Qed.
 End Sqrt.
@@ -353,5 +387,39 @@ Proof. intros. eapply (Arr_Proofs.nogrow_bridge seg idx cnt maxi (SCc L)); dc2. 
 Theorem cnst_removeback_bridge segs n c k : 0 <= k -> 0 <= c < maxi ->
   Gen_ArrCnst.RemoveBack seg cnt segs n c k = if Z.leb k c then Ok (tt, c - k) else Stuck.
 Proof. intros. eapply (Arr_Proofs.removeback_bridge seg idx cnt maxi (SCc L)); dc2. Qed.
+
+Theorem cnst_insert_n_from_facts alloc segs n c (items : Z -> Z) index count it : Arr_Proofs.ginv seg maxi (SCc L) n c -> 0 <= index <= c -> 0 <= count ->
+  c + count < maxi -> (it < index \/ c + count <= it) ->
+  exists g', Arr_Proofs.run seg idx alloc (map Arr_Proofs.act_of Gen_SegFacts.seg_insert_n) index count it (Arr_Proofs.mkg segs n c items) = Ok g' /\
+    Arr_Proofs.g_c g' = c + count /\ (forall k, k < n -> Arr_Proofs.g_segs g' k = segs k) /\ Arr_Proofs.ginv seg maxi (SCc L) (Arr_Proofs.g_n g') (c + count) /\
+    (forall i, 0 <= i < c -> Arr_Proofs.GA.pvGetItem seg (Arr_Proofs.g_segs g') (Arr_Proofs.g_n g') (c + count) i = Arr_Proofs.GA.pvGetItem seg segs n c i) /\
+    (forall j, j < index -> Arr_Proofs.g_items g' j = items j) /\ (forall j, index <= j < index + count -> Arr_Proofs.g_items g' j = items it) /\
+    (forall j, index + count <= j < c + count -> Arr_Proofs.g_items g' j = items (j - count)).
+Proof. intros. eapply (Arr_Proofs.insert_n_from_facts seg idx cnt alloc maxi (SCc L)); dc2. Qed.
+
+Theorem cnst_remove_n_from_facts alloc segs n c (items : Z -> Z) index count : Arr_Proofs.ginv seg maxi (SCc L) n c -> 0 <= index -> 0 <= count -> index + count <= c ->
+  exists g', Arr_Proofs.run seg idx alloc (map Arr_Proofs.act_of Gen_SegFacts.seg_remove_n) index count 0 (Arr_Proofs.mkg segs n c items) = Ok g' /\
+    Arr_Proofs.g_c g' = c - count /\ Arr_Proofs.g_segs g' = segs /\ Arr_Proofs.g_n g' = n /\ Arr_Proofs.ginv seg maxi (SCc L) n (c - count) /\
+    (forall i, 0 <= i < c - count -> Arr_Proofs.GA.pvGetItem seg segs n (c - count) i = Arr_Proofs.GA.pvGetItem seg segs n c i) /\
+    (forall j, j < index -> Arr_Proofs.g_items g' j = items j) /\ (forall j, index <= j < c - count -> Arr_Proofs.g_items g' j = items (j + count)).
+Proof. intros. eapply (Arr_Proofs.remove_n_from_facts seg idx cnt alloc maxi (SCc L)); dc2. Qed.
+
+Theorem cnst_range_insert_from_facts alloc segs n c (items : Z -> Z) index count : Arr_Proofs.ginv seg maxi (SCc L) n c -> 0 <= count -> c + count < maxi ->
+  exists g', Arr_Proofs.run seg idx alloc (map Arr_Proofs.act_of Gen_SegFacts.seg_pvinsert_forward) index count 0 (Arr_Proofs.mkg segs n c items) = Ok g' /\
+    Arr_Proofs.g_c g' = c + count /\ (forall k, k < n -> Arr_Proofs.g_segs g' k = segs k) /\ Arr_Proofs.ginv seg maxi (SCc L) (Arr_Proofs.g_n g') (c + count) /\
+    (forall i, 0 <= i < c -> Arr_Proofs.GA.pvGetItem seg (Arr_Proofs.g_segs g') (Arr_Proofs.g_n g') (c + count) i = Arr_Proofs.GA.pvGetItem seg segs n c i).
+Proof. intros. eapply (Arr_Proofs.range_insert_from_facts seg idx cnt alloc maxi (SCc L)); dc2. Qed.
+
+Theorem cnst_singlepass_insert_from_facts alloc m segs n c (items : Z -> Z) index (its : nat -> Z) : Arr_Proofs.ginv seg maxi (SCc L) n c -> 0 <= index <= c ->
+  c + Z.of_nat m < maxi -> (forall k, c + Z.of_nat m <= its k) ->
+  exists g', Arr_Proofs.insert_crt_times seg idx alloc m index its (Arr_Proofs.mkg segs n c items) = Ok g' /\ Arr_Proofs.g_c g' = c + Z.of_nat m /\
+    (forall k, k < n -> Arr_Proofs.g_segs g' k = segs k) /\ Arr_Proofs.ginv seg maxi (SCc L) (Arr_Proofs.g_n g') (c + Z.of_nat m) /\
+    (forall i, 0 <= i < c -> Arr_Proofs.GA.pvGetItem seg (Arr_Proofs.g_segs g') (Arr_Proofs.g_n g') (c + Z.of_nat m) i = Arr_Proofs.GA.pvGetItem seg segs n c i).
+Proof. intros. eapply (Arr_Proofs.singlepass_insert_from_facts seg idx cnt alloc maxi (SCc L)); dc2. Qed.
+
+Theorem cnst_removeback_stable segs n c k : Arr_Proofs.ginv seg maxi (SCc L) n c -> 0 <= k <= c ->
+  Arr_Proofs.GA.RemoveBack seg cnt segs n c k = Ok (tt, c - k) /\ Arr_Proofs.ginv seg maxi (SCc L) n (c - k) /\
+  (forall i, 0 <= i < c - k -> Arr_Proofs.GA.pvGetItem seg segs n (c - k) i = Arr_Proofs.GA.pvGetItem seg segs n c i).
+Proof. intros. eapply (Arr_Proofs.removeback_stable seg idx cnt maxi (SCc L)); dc2. Qed.
 
 End Cnst.
